@@ -126,7 +126,7 @@ def run(ctx, spec):
                 i = pr.emit('_', g + '.aff.eq', o_, a_)
                 exp[i] = ('%s.affine.eq' % g, 'bool true', True)
             b_, i = pr.let(g + '.aff.to_g', a_)
-            exp[i] = ('%s.from_affine' % g, 'ok ' + rm.jac_lit(F, Pv), True)
+            exp[i] = ('%s.from_affine' % g, ('denotes', Pv), True)
             vals[b_] = Pv
             eq(b_, x, '%s.eq/same' % g)
             a2, i = pr.let(g + '.aff.from_jacobian', Y)
@@ -150,7 +150,19 @@ def run(ctx, spec):
         toks = pr.lines[i].split()
         key = (which, toks[1]) + tuple(regvals.get(t, t) for t in toks[2:])
         sig = toks[1]
-        if isinstance(want, tuple):
+        if isinstance(want, tuple) and want[0] == 'denotes':
+            # From<AffineG*>: any representative of the same point is acceptable
+            good = False
+            if an.startswith('ok '):
+                try:
+                    good = rm.jac_affine(F, rm.jac_parse(F, an[3:])) == want[1]
+                except Exception:
+                    good = False
+            if good:
+                ctx.ok(cls, key, nontriv)
+            else:
+                ctx.fail(sig, '%s: conversion from affine form does not denote the same point: %r' % (cls, an[:120]), observed=an, line=pr.lines[i])
+        elif isinstance(want, tuple):
             Pv = want[1]
             head, _, payload = an.partition(' ')
             good = False
